@@ -49,6 +49,10 @@ def plan(tier, seed):
         cases.append(dict(lane='inline', kind=pick(['cacgmm', 'cwmm', 'cbmm', 'cwmm', 'cacgmm']), K=int(rng.integers(2, 4)), F=int(pick([3, 5, 9])), T=int(rng.integers(8, 25)),
                           D=int(rng.integers(2, 5)), aligner=pick(['greedy-cos', 'greedy-euclidean', 'dhtv']), rs=[seed, 17, i]))
         i += 1
+    for r in range(S(tier, 16, 160)):
+        cases.append(dict(lane='builtinmodel', kind=pick(['gcacgmm', 'vmfcacgmm']), K=int(pick([2, 3, 3])), F=int(pick([1, 2, 3])), T=int(rng.integers(8, 20)), D=int(rng.integers(2, 5)),
+                          sw=pick([[1.0, 1.0], [0.5, 2.0], [2.0, 0.5], [1.0, 3.0]]), wca=pick([[-1], [-3], [-3, -1]]), rs=[seed, 19, i]))
+        i += 1
     q = S(tier, 120, 1200)
     for r in range(q):
         Kb = int(rng.integers(1, 5)) if r % 6 else int(pick([5, 5, 6]))          # K = 5, 6: 120 / 720 candidate pairings per bin
@@ -225,6 +229,8 @@ def run_inline(case, R):
              opts={'wca': [-3] if case['rs'][-1] % 2 else [-3, -1], 'saliency': 'none', 'aligner': al}, rs=case['rs'])
     if case['kind'] == 'cacgmm':
         c['opts']['affiliation_eps'] = 0.0
+        if case['rs'][-1] % 3 == 0:
+            c['opts']['mask'] = True          # a source activity mask together with the aligner: masked rows move with their class
     s = scen.build(c)
     try:
         with instr.options(**s.copts), instr.capture() as ev:
@@ -239,7 +245,7 @@ def run_inline(case, R):
     with instr.disarmed():
         for i in range(1, len(ev)):
             prev = ev[i - 1]['model']
-            ref = models.bayes_posterior(s.kind, prev, s.data)
+            ref = models.bayes_posterior(s.kind, prev, s.data, mask=s.mask)
             aff = np.asarray(ev[i]['affiliation'], dtype=float)
             qf = ev[i].get('quadratic_form')
             qref = None
@@ -254,8 +260,10 @@ def run_inline(case, R):
                         continue
                     p = list(found[0])
                     r = float((np.abs(np.asarray(qf)[f] - qref[f, p]) / qref[f, p]).max())
-                    R.check('C14.inline', r <= 1e-6, f'inline/{s.kind}/quadratic-form-permuted-differently', f'iteration {i}, bin {f}: quadratic form not permuted with the posterior (rel {r:.2e})', aligner=case['aligner'])
-            colsum = float(np.abs(aff.sum(1) - 1).max())
+                    lam_ = np.asarray(prev.cacg.covariance_eigenvalues)[f]
+                    condq = float((lam_.max(-1) / np.maximum(lam_.min(-1), 1e-300)).max())        # z^H B^-1 z carries a relative error ~ eps cond(B)
+                    R.check('C14.inline', r <= 1e-6 + 1e3 * np.finfo(float).eps * condq, f'inline/{s.kind}/quadratic-form-permuted-differently', f'iteration {i}, bin {f}: quadratic form not permuted with the posterior (rel {r:.2e})', aligner=case['aligner'])
+            colsum = float(np.abs(aff.sum(1) - ref.sum(1)).max())          # (one, or zero where the activity mask switches every source off)
             R.check('C14.inline', colsum <= 1e-9, f'inline/{s.kind}/class-sum', f'sum over classes changed by alignment ({colsum:.2e})')
             # which reordering: the one the configured aligner computes from the (soft) Bayes posterior itself
             try:
@@ -281,6 +289,51 @@ def run_inline(case, R):
                     raise
                 R.count(f'recomputing the aligner mapping raised {type(e).__name__}')
     R.mark_nontrivial('inline', s.kind, case['aligner'], s.K, F)
+
+
+def run_builtinmodel(case, R):
+    """the built-in spatial/spectral alignment as the integration models use it inside EM (hook trace): every in-loop posterior is the
+    Bayes posterior of the preceding model with the spatial classes re-paired by one permutation per bin - streams weighted as the model
+    says - and that pairing is not worse than the identity under the routine's own criterion"""
+    from vmon import models, scen
+    c = dict(kind=case['kind'], cls='gauss', K=case['K'], N=case['T'], D=case['D'], lead=[case['F']], init='dirichlet:1', iters=3,
+             opts={'wca': case['wca'], 'saliency': 'none', 'spatial_weight': case['sw'][0], 'spectral_weight': case['sw'][1], 'inline_permutation_alignment': True,
+                   'affiliation_eps': 0.0}, rs=case['rs'])
+    s = scen.build(c)
+    try:
+        with instr.options(**s.copts), instr.capture() as ev:
+            scen.fit(s)
+    except Exception as e:
+        if not instr.is_library_exception(e):
+            raise
+        R.count(f'fit with built-in alignment raised {type(e).__name__}: {str(e)[:70]}')
+        R.ok('C14.raised')
+        return
+    K, F = s.K, case['F']
+    with instr.disarmed():
+        for i in range(1, len(ev)):
+            prev = ev[i - 1]['model']
+            spat, spec = models.stream_log_pdfs(s.kind, prev, s.data)
+            lw = models.log_weight(s.kind, prev, K)
+            aff = np.asarray(ev[i]['affiliation'], dtype=float)
+            for f in range(F):
+                lwf = np.broadcast_to(lw, (F, K, aff.shape[-1]))[f]
+                crit, match = {}, []
+                for p in itertools.permutations(range(K)):
+                    lp = spat[f, list(p)] + spec[f]
+                    cand = np.exp(lp - lp.max(0, keepdims=True)); cand = cand / cand.sum(0, keepdims=True)
+                    crit[p] = float((cand * lp).sum())
+                    post = oracles.log_softmax_posterior(lwf, lp, None)
+                    if np.abs(post - aff[f]).max() <= 1e-8:
+                        match.append(p)
+                R.check('C14.builtin', len(match) >= 1, f'builtin-model/{s.kind}/posterior-of-no-pairing', f'iteration {i}, bin {f}: the in-loop posterior is not the Bayes posterior of any pairing of the (weighted) spatial and spectral classes',
+                        sw=case['sw'], wca=case['wca'])
+                if match:
+                    ident = tuple(range(K))
+                    best = max(crit[p] for p in match)
+                    R.check('C14.builtin', best >= crit[ident] - 1e-9 * max(1.0, abs(crit[ident])), f'builtin-model/{s.kind}/worse-than-identity',
+                            f'iteration {i}, bin {f}: chosen pairing has criterion {best} < identity {crit[ident]}', sw=case['sw'])
+    R.mark_nontrivial('builtin-model', s.kind, K, F, case['sw'], case['wca'])
 
 
 def run_builtin(case, R):
